@@ -163,13 +163,17 @@ func (g *G) boolExpr(s *st, depth int) string {
 			return "is(" + g.typeLit() + ")"
 		}
 		if f != nil && len(f.Types) > 0 && g.chance(70, "is-ftype") {
-			return "is(" + ref + ", <" + pickStr(g, f.Types, "ftype") + ">)"
+			if t := pickStr(g, f.Types, "ftype"); !strings.Contains(t, "enum(") {
+				return "is(" + ref + ", <" + t + ">)"
+			}
 		}
 		return "is(" + ref + ", " + g.typeLit() + ")"
 	case 13:
 		g.feat("typeof")
 		if f != nil && len(f.Types) > 0 && g.chance(70, "typeof-ftype") {
-			return "typeof(" + ref + ")==<" + pickStr(g, f.Types, "ftype2") + ">"
+			if t := pickStr(g, f.Types, "ftype2"); !strings.Contains(t, "enum(") {
+				return "typeof(" + ref + ")==<" + t + ">"
+			}
 		}
 		return "typeof(" + ref + ")==" + g.typeLit()
 	case 14:
@@ -519,8 +523,17 @@ func (g *G) valueExpr(s *st, depth int) string {
 		g.feat("error-expr")
 		return "error(" + ref + ")"
 	case 26:
-		g.feat("spread")
-		return "{..." + ref + ",q:1}"
+		// `{...x}` panics ("bad uvarint") when x is a null record: only
+		// spread this (streams of non-null records) or never-null record fields.
+		if f != nil && !f.Generic && ref == f.Name && f.Has("record") && !f.Null && len(f.Kinds) == 1 {
+			g.feat("spread")
+			return "{..." + ref + ",q:1}"
+		}
+		if s.recs {
+			g.feat("spread")
+			return "{...this,q:1}"
+		}
+		return "{x:" + ref + "}"
 	case 27:
 		g.feat("this")
 		return "this"
